@@ -54,7 +54,7 @@ func (s *State) LoadDevice(
 
 	s.Conn.SetLogFH(logConfig)
 	errlog.Info("Requesting device config")
-	out := s.Conn.GetCmdOutput("sh run")
+	out := s.GetConfig("sh run")
 	errlog.Info("Got device config")
 	config, err := s.ParseConfig([]byte(out), "<device>")
 	errlog.Info("Parsed device config")
